@@ -27,10 +27,11 @@ type StreamingState struct {
 	inputTokens      int
 	outputTokens     int
 	messageStartSent bool
-	sawStreamData    bool // at least one "data:" line carried a JSON object or the [DONE] marker
-	sawValidChunk    bool // at least one "data:" line carried a JSON object
-	sawMalformed     bool // at least one "data:" line carried something that is not JSON
-	sawDone          bool // the [DONE] marker was seen: whatever follows is not part of the completion
+	sawStreamData    bool   // at least one "data:" line carried a JSON object or the [DONE] marker
+	sawValidChunk    bool   // at least one "data:" line carried a JSON object
+	sawMalformed     bool   // at least one "data:" line carried something that is not JSON
+	backendError     string // the backend reported a failure inside its stream ({"error": ...} instead of a chunk)
+	sawDone          bool   // the [DONE] marker was seen: whatever follows is not part of the completion
 }
 
 // convert openai sse stream to anthropic format
@@ -103,6 +104,23 @@ func (t *Translator) TransformStreamingResponse(ctx context.Context, openaiStrea
 	return nil
 }
 
+// streamErrorMessage recognises the "error" member of an in-band failure report: an object with
+// a message (the OpenAI shape) or a bare string
+func streamErrorMessage(v interface{}) (string, bool) {
+	switch e := v.(type) {
+	case map[string]interface{}:
+		if msg, ok := e["message"].(string); ok && msg != "" {
+			return msg, true
+		}
+		return "unspecified backend error", true
+	case string:
+		if e != "" {
+			return e, true
+		}
+	}
+	return "", false
+}
+
 // writeStreamError ends a stream that has already started with an Anthropic error event
 func (t *Translator) writeStreamError(w http.ResponseWriter, rc *http.ResponseController, cause error) {
 	event := map[string]interface{}{
@@ -137,6 +155,9 @@ func (t *Translator) transformStreamingSync(ctx context.Context, openaiStream io
 		if err := t.processStreamLine(line, state, w, rc); err != nil {
 			t.logger.Error("Error processing stream line", "error", err)
 			continue // keep going, don't fail entire stream on one bad line
+		}
+		if state.backendError != "" {
+			return fmt.Errorf("backend reported an error in its stream: %s", state.backendError)
 		}
 	}
 
@@ -174,6 +195,17 @@ func (t *Translator) processStreamLine(line string, state *StreamingState, w htt
 		t.logger.Warn("Malformed chunk encountered, skipping", "error", err,
 			"data", util.TruncateString(data, util.DefaultTruncateLengthPII), "data_len", len(data))
 		return nil
+	}
+
+	// OpenAI-compatible servers report a failure that happens after the 200 is out as an object
+	// with an "error" member in place of a completion chunk (vLLM, llama.cpp, OpenAI itself).
+	// That is the backend saying the completion failed: it must not be skipped and the message
+	// finished as if it had ended normally.
+	if _, isChunk := chunk["choices"]; !isChunk {
+		if msg, isErr := streamErrorMessage(chunk["error"]); isErr {
+			state.backendError = msg
+			return nil
+		}
 	}
 
 	// grab model name for message_start event
